@@ -387,8 +387,7 @@ def _reads_before_writes(stmts, ids, mentioned):
                     calls = [ast.Expr(value=c) for c in ast.walk(later) if isinstance(c, ast.Call)]
                     if mentioned & (_written_names(calls) - {n.id for n in ast.walk(later) if isinstance(n, ast.Name) and isinstance(n.ctx, ast.Store)}):
                         # a call of the same statement may change what the temporary stands for before a later operand is read
-                        if not isinstance(later, ast.Return):
-                            return None
+                        return None
                 written = written | _written_names([later])
             elif isinstance(later, ast.If):
                 if holds(later.test) and mentioned & written:
